@@ -472,7 +472,7 @@ impl StaticFile {
              \n#[allow(non_upper_case_globals)]\
              \npub static {rust_name}: StaticFile = StaticFile {{\
              \n  content: {content},\
-             \n  name: \"{url_name}\",\
+             \n  name: {url_name:?},\
              \n{mime}\
              }};",
             path = path,
